@@ -95,7 +95,7 @@ def gen(tier, rng, boost=1):
             for ua, ub in ((0, 0), (1, 1), (0, 1), (1, 2)):
                 yield from pair_case(num(x, ua), num(y, ub), "num-special", text=(not quick) or x == y or rng.random() < 0.15)
     # --- numbers near each other
-    n = (2500 if quick else 250000) * boost
+    n = (2500 if quick else 100000) * boost
     for i in range(n):
         a, b = gen_num_pair(rng)
         yield from pair_case(a, b, "num-near", text=(i % (6 if quick else 10) == 0))
@@ -112,7 +112,7 @@ def gen(tier, rng, boost=1):
             q1, q2 = rng.choice("nds"), rng.choice("nds")
             yield from pair_case(("str", s1, q1), ("str", s2, q2), "str-escape", text=False)
     # --- colours
-    n = (300 if quick else 20000) * boost
+    n = (300 if quick else 8000) * boost
     for i in range(n):
         a = G.gen_color(rng)
         k = rng.random()
@@ -137,7 +137,7 @@ def gen(tier, rng, boost=1):
         for y in HSL:
             yield Case(f"seqi\tnull\tnull\t-\t{hx(x)}\t{hx(y)}", "color-hsl-impl-only", {"nonan": True})
     # --- structured values
-    n = (1200 if quick else 80000) * boost
+    n = (1200 if quick else 30000) * boost
     for i in range(n):
         a = G.gen_value(rng, 2)
         k = rng.random()
@@ -162,7 +162,7 @@ def gen(tier, rng, boost=1):
         yield from pair_case(a, b, "struct", text=(i % 3 == 0))
     # --- maps whose numeric keys are within the tolerance of a key of the other map (== is not
     # transitive on numbers, so a one-sided inclusion test is order dependent)
-    n = (150 if quick else 10000) * boost
+    n = (150 if quick else 4000) * boost
     for i in range(n):
         base = rng.choice([1.0, 1.0, 2.0, 0.5, 10.0, 0.1, 3.0, float(rng.randint(1, 100))])
         v = rng.choice([("str", "x", "n"), num(1.0), ("bool", True)])
